@@ -653,7 +653,7 @@ func (x *panx) run(spaces []*panSpace) {
 			if !x.ctx.Mine(base + i) {
 				continue
 			}
-			if i%128 == 0 && x.ctx.Expired() {
+			if done%128 == 0 && x.ctx.Expired() {
 				x.res.Incomplete = append(x.res.Incomplete, fmt.Sprintf("deadline in panos space %s at %d/%d", sp.name, i, sp.n))
 				return
 			}
